@@ -29,7 +29,11 @@ func runDuplexTier(t *testing.T, rep *kit.Report, env kit.Env) {
 	}
 	for _, role := range []bool{false, true} {
 		for k := 0; k <= L; k++ { // number of A's regular frames still fitting before the wrap
-			for code := 0; code < total; code++ {
+			for code := 0; code < 2*total; code++ {
+				// keys set up the way a link handshake does (both ends discard their temporary
+				// keys) or the way the hello exchange does (only the initiator does).
+				helloStyle := code >= total
+				code := code % total
 				caseNo++
 				if !env.Mine(caseNo) {
 					continue
@@ -42,9 +46,14 @@ func runDuplexTier(t *testing.T, rep *kit.Report, env kit.Env) {
 				if err != nil {
 					panic(err)
 				}
-				if role {
+				switch {
+				case role && helloStyle:
+					err = kit.KeySessionsHello(b, a)
+				case role:
 					err = kit.KeySessions(b, a)
-				} else {
+				case helloStyle:
+					err = kit.KeySessionsHello(a, b)
+				default:
 					err = kit.KeySessions(a, b)
 				}
 				if err != nil {
@@ -90,7 +99,7 @@ func runDuplexTier(t *testing.T, rep *kit.Report, env kit.Env) {
 					}
 					evs = append(evs, string([]byte{from, kind}))
 				}
-				desc := fmt.Sprintf("A's regular counter preset to %#x (B: regular 40, priority 20), events %v, A was key-exchange client=%v", regl, evs, !role)
+				desc := fmt.Sprintf("A's regular counter preset to %#x (B: regular 40, priority 20), events %v, A was key-exchange client=%v, hello-style key setup (only the initiator discards temporary keys)=%v", regl, evs, !role, helloStyle)
 				for i, e := range evs {
 					src, dst, ss, ds, hs := a, b, sa, sb, ha
 					sip, dip := pool[0].IP, pool[1].IP
